@@ -482,6 +482,92 @@ async fn big_frames(ctx: &Ctx, epmd: &net::EpmdTable, round: usize) {
     }
 }
 
+/// Through a Node: a remote call whose request is far larger than the socket buffers and whose timeout is far
+/// shorter than the time the peer needs to start reading, then ordinary operations on the same connection. Whatever
+/// the call returns, what the peer reads must split into whole, readable frames, and every operation reported
+/// successful must be among them, in order.
+async fn node_big_call(ctx: &Ctx, epmd: &net::EpmdTable, round: usize) {
+    ctx.beat(&format!("node-big-call/{}", round));
+    let name = format!("nb{}", round);
+    let pl = net::listen_as(epmd, &name).await;
+    let peer_task = tokio::spawn(async move {
+        let mut frames: Vec<Vec<u8>> = Vec::new();
+        let Ok(mut peer) = pl.accept("cookie", PEER_BASE_FLAGS, 83).await else { return frames };
+        if peer.handshake().await.is_err() {
+            return frames;
+        }
+        tokio::time::sleep(Duration::from_millis(500)).await;
+        while frames.len() < 3 {
+            match tokio::time::timeout(Duration::from_secs(6), peer.read_frame4()).await {
+                Ok(Ok(f)) => {
+                    if !f.is_empty() {
+                        frames.push(f);
+                    }
+                }
+                _ => break,
+            }
+        }
+        frames
+    });
+    let mut node = edp_node::Node::new(format!("bigcall{}@127.0.0.1", round), "cookie");
+    if let Err(e) = node.start(0).await {
+        ctx.inconclusive(&format!("Node::start failed: {}", e));
+        peer_task.abort();
+        return;
+    }
+    let peer_node = format!("{}@127.0.0.1", name);
+    if let Err(e) = node.connect(peer_node.clone()).await {
+        ctx.inconclusive(&format!("Node::connect failed: {}", e));
+        peer_task.abort();
+        return;
+    }
+    let size = [9usize << 20, 16 << 20][round % 2];
+    let call_timeout = Duration::from_millis([1u64, 40, 150][round % 3]);
+    let big = OwnedTerm::Binary(vec![0x5a; size]);
+    let r_call = tokio::time::timeout(Duration::from_secs(30), node.rpc_call_raw_with_timeout(&peer_node, "m", "f", vec![big], call_timeout)).await;
+    let to = ExternalPid::new(Atom::new(&peer_node), 5, 0, 1);
+    let r_send = tokio::time::timeout(Duration::from_secs(30), node.send(&to, OwnedTerm::Tuple(vec![OwnedTerm::atom("marker"), OwnedTerm::Integer(round as i64)]))).await;
+    let r_call2 = tokio::time::timeout(Duration::from_secs(30), node.rpc_call_raw_with_timeout(&peer_node, "m", "g", vec![OwnedTerm::Integer(7)], Duration::from_millis(50))).await;
+    ctx.eval(3);
+    ctx.class(&format!("node-big-call/{}MiB/timeout-{}ms", size >> 20, call_timeout.as_millis()));
+    let frames = tokio::time::timeout(Duration::from_secs(40), peer_task).await.ok().and_then(|r| r.ok()).unwrap_or_default();
+    let wit = |d: serde_json::Value| json!({"request_bytes": size, "call_timeout_ms": call_timeout.as_millis() as u64, "big_call": format!("{:?}", r_call.as_ref().map(|r| r.as_ref().map(|_| ()).map_err(|e| e.to_string()))), "send": format!("{:?}", r_send.as_ref().map(|r| r.as_ref().map(|_| ()).map_err(|e| e.to_string()))), "frames_read_by_peer": frames.iter().map(|f| f.len()).collect::<Vec<_>>(), "detail": d});
+    if r_call.is_err() || r_send.is_err() || r_call2.is_err() {
+        ctx.viol("C07:stall:node-big-call", "an operation through the node did not return within 30 s", wit(json!({})));
+        return;
+    }
+    let mut cache = ReceiverCache::default();
+    let mut kinds: Vec<String> = Vec::new();
+    for f in &frames {
+        match read_frame(f, false, &mut cache) {
+            Ok((Val::Tuple(c), p)) => {
+                let tag = c.first().cloned().unwrap_or(Val::Nil);
+                let what = if tag.same(&Val::int(6)) {
+                    if f.len() > size { "big-call" } else { "small-call" }
+                } else if tag.same(&Val::int(2)) && matches!(&p, Some(Val::Tuple(t)) if t.first() == Some(&Val::atom("marker"))) {
+                    "marker"
+                } else {
+                    "other"
+                };
+                kinds.push(what.to_string());
+            }
+            Ok(_) => kinds.push("not-a-control-tuple".into()),
+            Err(e) => {
+                ctx.viol("C07:unparsable:after-a-timed-out-big-call", "what the peer read after a remote call with a large request and a short timeout does not split into well-formed frames", wit(json!({"error": e, "frame_head": hex_cap(f, 48)})));
+                return;
+            }
+        }
+    }
+    let send_ok = matches!(&r_send, Ok(Ok(())));
+    let marker_at = kinds.iter().position(|k| k == "marker");
+    if send_ok && marker_at.is_none() {
+        ctx.viol("C07:no-frame:send-after-a-timed-out-big-call", "a send reported successful after a remote call with a large request had timed out never reached the peer as a frame", wit(json!({"frames": kinds})));
+    }
+    if kinds.iter().filter(|k| *k == "big-call").count() > 1 || kinds.iter().filter(|k| *k == "marker").count() > 1 {
+        ctx.viol("C07:more-than-one-frame:node-big-call", "an operation through the node appears more than once on the wire", wit(json!({"frames": kinds})));
+    }
+}
+
 /// Many tasks sending through one Node; the peer's byte stream must split into whole frames.
 async fn concurrent(ctx: &Ctx, rng: &mut Rng, epmd: &net::EpmdTable, run_id: usize, with_yields: bool) {
     ctx.beat(&format!("concurrent/{}", run_id));
@@ -660,7 +746,7 @@ async fn concurrent(ctx: &Ctx, rng: &mut Rng, epmd: &net::EpmdTable, run_id: usi
 }
 
 pub fn run(ctx: &Ctx) {
-    ctx.rule("(1) every operation (send, send_to_name, link, unlink, monitor, demonitor) x argument classes (plain and node-local pids, names of 0..255 chars incl. non-ASCII, payloads from the term generator, unlink ids over the 64-bit range, references of 1..3 words) x all four combinations of which side offers the distribution header (header mode only when both do) against a directly driven Connection, each frame read by an independent implementation; operations before the handshake and after a handshake that failed at its last steps (wrong ack digest, refusal status, short ack, close), with the peer recording any byte that still arrives; frames of 1..13 MiB written while the peer is not reading yet, followed by a small frame, in both modes; (2) 2..64 tasks x 5..40 operations through one Node on a current-thread runtime with seeded yields at the partial-write hooks and on a multi-thread runtime; evaluations = operations judged; distinct = distinct (mode, operation, argument class) + concurrency configurations + observed frame interleavings (hash of the caller sequence at the peer)");
+    ctx.rule("(1) every operation (send, send_to_name, link, unlink, monitor, demonitor) x argument classes (plain and node-local pids, names of 0..255 chars incl. non-ASCII, payloads from the term generator, unlink ids over the 64-bit range, references of 1..3 words) x all four combinations of which side offers the distribution header (header mode only when both do) against a directly driven Connection, each frame read by an independent implementation; operations before the handshake and after a handshake that failed at its last steps (wrong ack digest, refusal status, short ack, close), with the peer recording any byte that still arrives; frames of 1..13 MiB written while the peer is not reading yet, followed by a small frame, in both modes; remote calls through a Node with a 9..16 MiB request and a 1..150 ms timeout to a peer that starts reading late, followed by ordinary operations (the peer's bytes must split into whole frames); (2) 2..64 tasks x 5..40 operations through one Node on a current-thread runtime with seeded yields at the partial-write hooks and on a multi-thread runtime; evaluations = operations judged; distinct = distinct (mode, operation, argument class) + concurrency configurations + observed frame interleavings (hash of the caller sequence at the peer)");
     ctx.assume("unique ids travel in the payload, or in the `from` pid for payload-less operations");
     let mut rng = Rng::derive(ctx.seed, 7, 1);
     {
@@ -677,6 +763,11 @@ pub fn run(ctx: &Ctx) {
                 after_failed_handshake(ctx, &epmd, round).await;
                 if round == 0 || !ctx.quick() {
                     big_frames(ctx, &epmd, round).await;
+                }
+                node_big_call(ctx, &epmd, round * 3).await;
+                node_big_call(ctx, &epmd, round * 3 + 1).await;
+                if !ctx.quick() {
+                    node_big_call(ctx, &epmd, round * 3 + 2).await;
                 }
             }
             for r in 0..ctx.pick(25usize, 2500usize) {
